@@ -177,3 +177,13 @@ PROPS["C18"] = dict(
     modelled="PackfileReader (readVersion, decodeObjTypeAndLen, ReadObject) over a chunked reader with the extracted read mode of every site; the other decoders by their whole-buffer models",
     assumptions=["io.ReadFull / io.ReadAll behave as documented", "HTTP, gzip and TLS are represented by arbitrary chunkings of the byte stream"],
 )
+
+PROPS["C05"] = dict(
+    lean_modules=["WrglModel.Props.C05"],
+    quick_n=300, thorough_n=4000,
+    rule="(base, branch1..branchN) tuples, N in 2..3, 3..27 rows (1 in 12: 250..550 rows, several blocks), 2..4 columns, key first / key elsewhere / composite / absent; "
+         "branches derived by row adds (colliding new keys), removes and cell edits; modes: one branch = base, all branches equal, independent edits; run through merge.Merger "
+         "(Start, unresolved Merge records, SortedRows); non-trivial = a conflict or >3 base rows; distinct = distinct (op, input)",
+    modelled="pkg/merge/merger.go (mergeTables), row_resolver.go (Resolve, tryResolve), row_collector.go (SaveResolvedRow, collectRowsThatStayedTheSame) for tables with equal column lists",
+    assumptions=["row hashes identify row content (meow collision-freedom on a run)", "column-changing branches (CompareColumns) are run for crash-freedom only"],
+)
